@@ -2,6 +2,7 @@
 from __future__ import annotations
 
 import corr_symmetry
+import corr_semcond
 import semcheck
 import tgen
 import semprop
@@ -17,9 +18,13 @@ def corr(rng, quick):
     return corr_symmetry.run(rng, 60 if quick else 2500, corpus_limit=60 if quick else None)
 
 
+def semcond(rng, quick):
+    return corr_semcond.run(rng, 40 if quick else 1500, corpus_limit=20 if quick else None)
+
+
 def run(ctx) -> int:
     flags = [semcheck.flags_only("symmetry")]
-    return _generic.run_semantic(ctx, MODULE, LEVEL, RULE, flags, 'voc', {'dependency', 'symmetry'}, EXTRA, (110, 700), (80, 3000), corr=[('symmetry', corr)],
+    return _generic.run_semantic(ctx, MODULE, LEVEL, RULE, flags, 'voc', {'dependency', 'symmetry'}, EXTRA, (110, 700), (80, 3000), corr=[('symmetry', corr), ('theorem side conditions on real rewrites', semcond)],
                                  n_inst=5, facts_over='in', outp_choices=('auto',), one_to_one=True, generators=[tgen.GENERATORS['symmetry']],
                                  assumptions=("the pass's syntactic decisions are not derived from the ground-level side conditions in Lean (validated by the oracle)", 'instances range over the declared/auto-detected input predicates only'))
 
